@@ -191,8 +191,10 @@ def compare_terms(got, want, what, ordered=False, with_extra=True, untyped_by_cl
         g, w = got[k], want[k]
         if untyped_by_class:
             g, w = _untyped_classes(g), _untyped_classes(w)
-        gk = [term_key(t, with_extra=with_extra) for t in g]
-        wk = [term_key(t, with_extra=with_extra) for t in w]
+        # bonds, angles and dihedrals are the same term when listed backwards; an improper is not (the position of the
+        # central atom is meaningful), so impropers are compared as listed
+        gk = [term_key(t, with_extra=with_extra, directed=(k == "improper")) for t in g]
+        wk = [term_key(t, with_extra=with_extra, directed=(k == "improper")) for t in w]
         if ordered:
             if gk != wk:
                 raise Violation(k + "-terms", "%s: %ss (in order) %r, expected %r" % (what, k, _short(gk), _short(wk)))
